@@ -1,0 +1,29 @@
+//go:build verif
+
+// Package vhook provides named hook points for the verification harness (build tag "verif" only).
+// A hook point reports that a goroutine reached a linearization point and lets the installed handler
+// hold it there; without a handler, and in every build without the tag, it does nothing.
+package vhook
+
+import "sync/atomic"
+
+// Handler receives the hook point name and the key/value pairs given at the call site.
+type Handler func(point string, kv ...any)
+
+var handler atomic.Pointer[Handler]
+
+// Set installs (or, with nil, removes) the handler.
+func Set(h Handler) {
+	if h == nil {
+		handler.Store(nil)
+		return
+	}
+	handler.Store(&h)
+}
+
+// At is called at a hook point.
+func At(point string, kv ...any) {
+	if h := handler.Load(); h != nil {
+		(*h)(point, kv...)
+	}
+}
